@@ -59,8 +59,10 @@ def scn_lookup(c, ci, history=False):
     polys = abstract_polygons(conv)
     ev = c.events[n_ev:]
     q = [e for e in ev if e[0] == 'STRtree.query']
-    c.check('exactly one spatial query, of the point itself, with predicate intersects (contains or touches)',
-            len(q) == 1 and q[0][2] is p and q[0][3] == 'intersects' and q[0][1] is polys)
+    one_query = len(q) == 1 and q[0][2] is p and q[0][3] == 'intersects' and q[0][1] is polys
+    c.check('exactly one spatial query, of the point itself, with predicate intersects (contains or touches; no tolerance, no other predicate)', one_query)
+    if not one_query:
+        raise PathEnd()
     c.check('nearest-neighbour search is never used', not any(e[0] == 'STRtree.nearest' for e in ev))
     pred = core.ctx()._shp_fns['pred_intersects']
     m = c.fresh_int('m')          # an arbitrary position
